@@ -14,8 +14,8 @@ CONSTANT Traces    \* sequence of [hdr |-> header, ev |-> sequence of events]
 \* event:  [op, name, out: seq of ids, in: seq of ids, i: seq of integers (times in model units, flags),
 \*          sc: scale code [typ, a, b]]
 
-VARIABLES tid, l, terms, bad, xfin, reads
-vars == <<tid, l, terms, bad, xfin, reads>>
+VARIABLES tid, l, terms, bad, xfin, reads, fin
+vars == <<tid, l, terms, bad, xfin, reads, fin>>
 
 MLE == 1000000      \* the symbol of the quasi-MLE factor in scale tags
 Hdr == Traces[tid].hdr
@@ -57,6 +57,8 @@ OpResult(e) ==
     [] e.op = "rescale_n"  -> <<Rescale(Tm(e.in[1]), ScaleTag(e.sc))>>
     [] e.op = "rescale_c"  -> <<Rescale(Tm(e.in[1]), ScaleTag(e.sc))>>
     [] e.op = "linearize"  -> <<L(e.i[1], Tm(e.in[1]), e.i[2], e.i[3])>>
+    [] e.op = "to_derivative" -> <<XObs(e.i[2], e.i[1])>>
+    [] e.op = "sample"     -> <<SampleOf(Tm(e.in[1]), <<e.i[1], e.i[2]>>)>>
     [] e.op = "opaque"     -> [q \in 1..Len(e.out) |-> Err("opaque")]
     [] OTHER -> <<>>
 
@@ -205,14 +207,53 @@ ErrnormExpect(e) ==
      ELSE IF ~(HasRead("read_mean", e.in[1]) /\ HasRead("read_mean", e.in[2])) THEN <<"errnorm: the reference must use the previous and the proposed mean", RZero>>
      ELSE <<"", n2>>
 
+\* ---- consumers of the finalised posterior (C12 / C13 wiring) -----------------------
+\* fin = [times: output times, conds: ids of the stored conditionals, marg: id of the terminal marginal] from finalize.
+\* lml marker: e.i = <<K + 1, average (0/1), tcoeff index>>: the log-densities must have been read, in this order, from
+\* the observation of datum K+1 under the terminal marginal, then of datum k under the marginal at t_k given all solver
+\* data AND the external data k+1..K+1; every output time exactly once.
+LogpdfReads == SelectSeq(reads, LAMBDA r : r[1] = "logpdf")
+RECURSIVE Range(_, _)
+Range(a, b) == IF a > b THEN <<>> ELSE <<a>> \o Range(a + 1, b)
+LmlProblem(e) ==
+  LET n == e.i[1]
+      LR == LogpdfReads
+  IN IF fin.times = <<>> \/ Len(fin.times) # n THEN "lml: number of data differs from the number of output times"
+     ELSE IF Len(LR) # n THEN "lml: every output time must contribute exactly one log-density"
+     ELSE IF \E q \in 1..n :
+               LET o == Tm(LR[q][2])
+                   k == n + 1 - q                       \* data are consumed from the last output time backwards
+               IN ~( /\ o.k = "OX" /\ o.x.k = "X" /\ o.x.j = k /\ o.x.idx = e.i[3]
+                     /\ BaseOf(o.of) = ExpectedOutput(xfin, fin.times[k])
+                     /\ ExtOf(o.of) = Range(k + 1, n) )
+          THEN "lml: a datum is not scored under the marginal at its own time given all later data"
+     ELSE ""
+RECURSIVE SumIds(_)
+SumIds(rs) == IF Len(rs) = 0 THEN 0 ELSE rs[1][2] + SumIds(Tail(rs))
+
+\* sample marker: e.in = ids of the samples in time order; they must form the backward chain through the stored
+\* conditionals, starting from a sample of the terminal marginal, every draw with its own key
+SampleProblem(e) ==
+  LET n == Len(e.in)
+      Smp(q) == Tm(e.in[q])
+  IN IF Len(fin.times) # n THEN "sample: one sample per output time"
+     ELSE IF ~(Smp(n).k = "S" /\ Smp(n).of = Tm(fin.marg)) THEN "sample: the last sample is not drawn from the terminal marginal"
+     ELSE IF \E q \in 1..(n - 1) : ~( Smp(q).k = "S" /\ Smp(q).of.k = "CS" /\ Smp(q).of.c = Tm(fin.conds[q]) /\ Smp(q).of.s = Smp(q + 1) )
+          THEN "sample: a sample is not drawn from the stored conditional applied to the sample of the next output time"
+     ELSE IF \E q \in 1..n : \E r \in 1..n : q # r /\ Smp(q).key = Smp(r).key THEN "sample: two draws use the same key"
+     ELSE ""
+
 MarkerProblem(e) ==
   CASE e.name = "finalize" -> IF FinalizeProblem(e) # "" THEN FinalizeProblem(e) ELSE ReportProblem(e)
     [] e.name = "offgrid" -> OffgridProblem(e)
     [] e.name = "errnorm" -> ErrnormExpect(e)[1]
+    [] e.name = "lml" -> LmlProblem(e)
+    [] e.name = "sample" -> SampleProblem(e)
     [] OTHER -> ""
 
 \* ---- the trace machine --------------------------------------------------------
-Init == tid = 1 /\ l = 1 /\ terms = <<>> /\ bad = "" /\ xfin = Err("none") /\ reads = <<>>
+NoFin == [times |-> <<>>, conds |-> <<>>, marg |-> 0]
+Init == tid = 1 /\ l = 1 /\ terms = <<>> /\ bad = "" /\ xfin = Err("none") /\ reads = <<>> /\ fin = NoFin
 
 Verdict(why) ==
   PrintT("@@VERDICT " \o ToJson([tid |-> tid, ok |-> (why = ""), at |-> l, why |-> why]))
@@ -224,20 +265,24 @@ Consume ==
         THEN /\ bad' = MarkerProblem(e)
              /\ terms' = terms
              /\ xfin' = IF e.name = "finalize" THEN Tm(e.in[1]) ELSE xfin
+             /\ fin' = IF e.name = "finalize" THEN [times |-> e.i, conds |-> e.aux, marg |-> IF Len(e.aux2) > 0 THEN e.aux2[1] ELSE 0] ELSE fin
              /\ reads' = <<>>
+             /\ (e.name = "lml" /\ LmlProblem(e) = "") =>
+                    PrintT("@@LML " \o ToJson([tid |-> tid, at |-> l, sumids |-> SumIds(LogpdfReads), n |-> e.i[1], avg |-> e.i[2]]))
              /\ (e.name = "finalize" /\ Hdr.solver = "mle" /\ Tm(e.in[1]).k = "N") =>
                     PrintT("@@MLE " \o ToJson([tid |-> tid, sumsq |-> SumSq(Tm(e.in[1]).segs),
                                                den |-> NumData(Tm(e.in[1]).segs) * (IF Hdr.corr THEN Hdr.nsteps ELSE 1)]))
              /\ (e.name = "errnorm" /\ ErrnormExpect(e)[1] = "") =>
                     PrintT("@@ERRNORM " \o ToJson([tid |-> tid, at |-> l, n2 |-> ErrnormExpect(e)[2]]))
-        ELSE IF e.op \in {"read_std", "read_mean", "rms"}
+        ELSE IF e.op \in {"read_std", "read_mean", "rms", "logpdf"}
         THEN /\ reads' = Append(reads, <<e.op, e.in[1]>>)
-             /\ UNCHANGED <<terms, bad, xfin>>
+             /\ UNCHANGED <<terms, bad, xfin, fin>>
         ELSE LET r == OpResult(e)
              IN /\ terms' = terms \o r
                 /\ bad' = IF Len(e.out) # Len(r) \/ (Len(r) > 0 /\ e.out[1] # Len(terms) + 1)
                           THEN "ids: results are not consecutive fresh ids" ELSE ""
                 /\ xfin' = xfin
+                /\ fin' = fin
                 /\ reads' = reads
   /\ l' = l + 1
   /\ tid' = tid
@@ -246,7 +291,7 @@ NextTrace ==
   /\ tid <= Len(Traces)
   /\ (bad # "" \/ l > Len(Traces[tid].ev))
   /\ Verdict(bad)
-  /\ tid' = tid + 1 /\ l' = 1 /\ terms' = <<>> /\ bad' = "" /\ xfin' = Err("none") /\ reads' = <<>>
+  /\ tid' = tid + 1 /\ l' = 1 /\ terms' = <<>> /\ bad' = "" /\ xfin' = Err("none") /\ reads' = <<>> /\ fin' = NoFin
 
 Next == Consume \/ NextTrace
 Spec == Init /\ [][Next]_vars
